@@ -26,6 +26,8 @@ func init() {
 		func(t *vcTrial) { vcRunC05(t, vc05Cfg{Network: "tcp", Handler: "blockread", Actors: []string{"detach"}, Detach: true}) },
 		func(t *vcTrial) { vcRunC05(t, vc05Cfg{Network: "tcp", Handler: "block", Actors: []string{"ioerror", "close"}, Closers: 2}) },
 		func(t *vcTrial) { vcRunC05(t, vc05Cfg{Network: "unix", Handler: "drain", Actors: []string{"ioerror"}, OnConnect: true}) },
+		func(t *vcTrial) { vcRunC05(t, vc05Cfg{Network: "tcp", Handler: "none", OnConnect: true, Actors: []string{"fin"}}) },
+		func(t *vcTrial) { vcRunC05(t, vc05Cfg{Network: "unix", Handler: "none", OnConnect: true, Actors: []string{"input", "fin"}}) },
 		func(t *vcTrial) { vcRunC05PrepareClose(t, 1, "tcp") },
 		func(t *vcTrial) { vcRunC05PrepareClose(t, 3, "unix") },
 	}
@@ -185,6 +187,9 @@ func vcScenC05(t *vcTrial) {
 	cfg.Handler = []string{"drain", "drain", "block", "panic", "closeinside", "blockread"}[r.intn(6)]
 	cfg.Closers = r.rng(0, 4)
 	cfg.OnConnect = r.chance(30)
+	if r.chance(12) {
+		cfg.Handler, cfg.OnConnect = "none", true
+	}
 	cfg.Detach = r.chance(8)
 	cfg.ClientNP = r.chance(15)
 	if r.chance(6) {
@@ -259,6 +264,7 @@ func vcRunC05(t *vcTrial, cfg vc05Cfg) {
 		so.OnConnect = func(ctx context.Context, rec *vcConnRec) {}
 		so.OnDisconnect = func(ctx context.Context, rec *vcConnRec) {}
 	}
+	so.NoOnRequest = cfg.Handler == "none" // a server with OnConnect/OnDisconnect only
 	so.OnRequest = func(ctx context.Context, rec *vcConnRec) error {
 		atomic.AddInt32(&handlerRuns, 1)
 		c := rec.Conn
@@ -320,7 +326,7 @@ func vcRunC05(t *vcTrial, cfg vc05Cfg) {
 	vcSetPlan(t.Plan)
 	// first input starts the handler
 	cli.Write([]byte("hello-verif"))
-	if cfg.Handler != "drain" && cfg.Handler != "closeinside" {
+	if cfg.Handler != "drain" && cfg.Handler != "closeinside" && cfg.Handler != "none" {
 		// give the handler a chance to be running when the actors start (not required)
 		vcWaitPoint(mark, vpTaskStart, rec.ID, 200*time.Millisecond)
 	}
@@ -389,6 +395,23 @@ func vcRunC05(t *vcTrial, cfg vc05Cfg) {
 	wg.Wait()
 	doRelease()
 	vcSetPlan(nil)
+	// a connection with callbacks that the *peer* closed is torn down by netpoll itself (only a
+	// connection without OnConnect and OnRequest waits for the user's Close): the close callbacks
+	// must come without any user Close. Bounded progress with a stuck-state witness.
+	if usedFin && !cfg.Detach && rec.count(vcCbClose) == 0 {
+		for dl := time.Now().Add(5 * time.Second); rec.count(vcCbClose) == 0 && time.Now().Before(dl); {
+			time.Sleep(100 * time.Microsecond)
+		}
+		if c := vcInner(rec.Conn); rec.count(vcCbClose) == 0 && atomic.LoadInt32(&rec.depth) == 0 && c.isUnlock(processing) && !c.IsActive() && vcRunnerProgress(5, 5*time.Second) {
+			time.Sleep(200 * time.Millisecond)
+			if rec.count(vcCbClose) == 0 && atomic.LoadInt32(&rec.depth) == 0 && c.isUnlock(processing) {
+				t.Violate("C05", "never_torn_down", "the peer closed the connection (callbacks configured: OnConnect=%v OnRequest=%v), the poller marked it closed, no handler is running and the processing lock is free - yet the close callbacks did not run without a user Close (history %v)", cfg.OnConnect, cfg.Handler != "none", rec.history())
+				sampler.Stop()
+				rec.Conn.Close()
+				return
+			}
+		}
+	}
 	// final user Close: after it returned and the handler task has exited the connection must be torn down
 	rec.Conn.Close()
 	closed := rec.waitClosed(10 * time.Second)
